@@ -318,6 +318,19 @@ class Interp(object):
                         init = flat
                         ty_ = '[%d x i8]' % len(flat)
                         g = dict(g, ty=ty_)
+                if isinstance(init, list) and init and re.match(r'^(\[\d+ x )+i8\*\]+$', ty_):
+                    # a constant table of pointers (e.g. of string literals), possibly multi-dimensional: flattened operand encodings
+                    def flat_ptrs(x):
+                        if isinstance(x, list) and x and isinstance(x[0], str):
+                            return [x]
+                        out_ = []
+                        for y in x:
+                            out_ += flat_ptrs(y)
+                        return out_
+                    try:
+                        o.attrs['ptrdata'] = flat_ptrs(init)
+                    except Exception:
+                        pass
                 if isinstance(init, list) and init and all(isinstance(x, int) for x in init):
                     o.attrs['data'] = init
                     m = re.match(r'\[(\d+) x i(\d+)\]', g.get('ty', ''))
@@ -718,6 +731,19 @@ class Interp(object):
             # may overlap an unknown write
             return self.fresh_for_type(st, ty, 'ld')
         if not off.t and o.attrs.get('cstr_len') is None:
+            pd0 = o.attrs.get('ptrdata')
+            if pd0 is not None and o.attrs.get('const') and nbytes == 8 and is_ptr(ty) and off.c % 8 == 0 and 0 <= off.c // 8 < len(pd0):
+                # an entry of a constant pointer table read at a constant offset
+                ent = pd0[off.c // 8]
+                tgt, toff = None, 0
+                if ent[0] == 'g':
+                    tgt = ent[1]
+                elif ent[0] == 'ce' and ent[1] == 'getelementptr' and len(ent) > 4 and isinstance(ent[4], dict) and ent[4].get('off') is not None and ent[3][0][0] == 'g':
+                    tgt, toff = ent[3][0][1], ent[4]['off']
+                elif ent[0] == 'n':
+                    return NULL
+                if tgt is not None:
+                    return PtrV(self.global_obj(st, tgt), Lin.const(toff), True)
             data0 = o.attrs.get('data')
             eb0 = o.attrs.get('eltbytes', 1)
             if data0 is not None and o.attrs.get('const') and nbytes == eb0 and int_bits(ty) == 8 * eb0 and off.c % eb0 == 0 and 0 <= off.c // eb0 < len(data0):
@@ -1695,6 +1721,13 @@ class Interp(object):
         if op == 'select':
             c = self.val(st, inst.a[0])
             cond = self.cond_of(st, c)
+            if cond is None and isinstance(c, IntV):
+                # a flag that is not the result of a comparison (a bool loaded from memory, truncated): constant or "non-zero"
+                sa_ = c.lin.single_atom()
+                if not c.lin.t:
+                    cond = ('const', c.lin.c != 0)
+                elif sa_ is not None and sa_[1] == 1 and sa_[2] == 0:
+                    cond = ('nz', sa_[0])
             a = self.val(st, inst.a[1])
             b = self.val(st, inst.a[2])
             r = self.decide(st, cond) if cond is not None else None
@@ -2354,12 +2387,13 @@ class Interp(object):
             snap = None
             if isinstance(args[2], PtrV) and args[2].obj in st.objs:
                 fo = st.objs[args[2].obj]
-                snap = (dict(fo.cells), list(fo.regions), args[2])
-            st.ev('snprintf', inst, d, nl, snap, list(args[3:]))
+                snap = (dict(fo.cells), list(fo.regions), args[2], fo.attrs.get('data') if fo.attrs.get('const') else None)
+            # returns the untruncated length; conversions of a floating-point value always produce at least one character
+            res = self.fresh_int(st, 32, 'printed', signed=True, lo=1, hi=(1 << 31) - 1)
+            st.ev('snprintf', inst, d, nl, snap, list(args[3:]), res)
             if isinstance(d, PtrV) and nl is not None:
                 self.region_write(st, inst, d, nl, ('havoc', 'snprintf'), 'snprintf')
-            # returns the untruncated length; conversions of a floating-point value always produce at least one character
-            return [(st, self.fresh_int(st, 32, 'printed', signed=True, lo=1, hi=(1 << 31) - 1))]
+            return [(st, res)]
         if name in ('strcat', 'strncat', 'strcpy', 'strncpy') and len(args) >= 2 and isinstance(args[0], PtrV) and args[0].obj is not None:
             # C string writers: the bytes written are bounded by the lengths of the strings involved, not by the destination -
             # the destination's capacity is an obligation (checked like any other store range)
